@@ -192,7 +192,8 @@ Proof.
   destruct (consume_id c_MessageContainerTypeID b) as [b1|e|]; cbn [bind]; [|err_good|congruence].
   destruct (HS b1 eq_refl) as [OK1 L1]. destruct (decode_int_good b1 OK1) as [NP1 HS1].
   destruct (decode_int b1) as [[n b2]|e|]; cbn [bind]; [|err_good|congruence].
-  destruct (HS1 n b2 eq_refl) as [OK2 L2]. destruct (dec_msgs_good (S (length b2)) n b2 OK2) as [NP2 HS2].
+  destruct (HS1 n b2 eq_refl) as [OK2 L2]. destruct (n <? 0); [err_good|].
+  destruct (dec_msgs_good (S (length b2)) n b2 OK2) as [NP2 HS2].
   split; [exact NP2|]. intros l r E. specialize (HS2 l r E). eapply Forall_impl; [|exact HS2].
   intros a [Ha La]. split; [assumption|lia].
 Qed.
